@@ -1,25 +1,10 @@
 /-
   DDProofs.MddFoa — specification of `MDD.find_or_add`.
 -/
-import DDProofs.MddInv
+import DDProofs.MddCount
 open Std
 
 namespace DD
-
-/-- the node table after `self._succ[u] = t` -/
-def MTbl.addNode (t : MTbl) (u : Nat) (nd : MNd) : MTbl := { t with succ := t.succ.insert u nd }
-
-theorem MTbl.node?_addNode (t : MTbl) (u : Nat) (nd : MNd) (x : Nat) :
-    (t.addNode u nd).node? x = if u = x then some nd else t.node? x := by
-  simp [MTbl.addNode, MTbl.node?, TreeMap.getElem?_insert]
-
-theorem MTbl.addNode_ext (t : MTbl) (u : Nat) (nd : MNd) (hf : t.node? u = none) :
-    MExt t (t.addNode u nd) := by
-  refine ⟨rfl, rfl, ?_⟩
-  intro x n hn
-  rw [MTbl.node?_addNode]
-  have : u ≠ x := by intro h; subst h; rw [hf] at hn; cases hn
-  simp [this, hn]
 
 /-- adding a well-formed node at a fresh number keeps the table well-formed and unique -/
 theorem MTbl.addNode_wfu (t : MTbl) (hw : MWFU t) (u : Nat) (i : Nat) (L : List Int)
@@ -82,6 +67,7 @@ structure MakeOK (m : MddMgr) (i : Nat) (L : List Int) (u : Nat) (m' : MddMgr) :
   ext : MExt m.tbl m'.tbl
   node : m'.tbl.node? u = some ⟨i, L⟩
   ge_two : 2 ≤ u
+  exact : ∀ ext, RefExact m ext → RefExact m' ext
 
 theorem listInt_compare_eq (a b : List Int) : compare a b = .eq ↔ a = b := by
   exact Std.LawfulEqOrd.compare_eq_iff_eq
@@ -101,7 +87,7 @@ theorem mFindOrMake_spec (m : MddMgr) (h : MInv m) (i : Nat) (L : List Int)
     obtain ⟨hu, hm⟩ := hr
     subst hu hm
     have hn := (h.pred ⟨i, L⟩ u').mp hp
-    exact ⟨h, MExt.refl _, hn, h.wf.ge_two _ _ hn⟩
+    exact ⟨h, MExt.refl _, hn, h.wf.ge_two _ _ hn, fun _ hx => hx⟩
   · next hp =>
     split at hr
     · simp at hr
@@ -194,9 +180,63 @@ theorem mFindOrMake_spec (m : MddMgr) (h : MInv m) (i : Nat) (L : List Int)
               have hc' : m.cache[iteKey g a b]? = some w := by rw [← A.cache]; exact hc
               exact (h.cache g a b w hc').ext h.wf.toMWF he
           have hinv3 := hR.inv hinv2
-          refine ⟨hinv3, ?_, ?_, A.ge_two⟩
+          refine ⟨hinv3, ?_, ?_, A.ge_two, ?_⟩
           · rw [hR.tbl, hm2tbl]; exact he
           · rw [hR.tbl, hm2tbl, MTbl.node?_addNode]; simp
+          · -- exact counts
+            intro ext hx
+            have hcount := mIncrefAll_count _ _ _ hinc
+            have hW := h.wf.toMWF
+            have hu1ne : u1 ≠ 1 := by have := A.ge_two; omega
+            have hcntL : cntInto L u1 = 0 := by
+              cases hc : cntInto L u1 with
+              | zero => rfl
+              | succ c =>
+                exfalso
+                obtain ⟨k, hk, habs⟩ := cntInto_pos_iff.mp (by rw [hc]; omega : 0 < cntInto L u1)
+                rcases hmem k hk with h1 | h1
+                · omega
+                · rw [habs, A.fresh] at h1; cases h1
+            have hbound : ∀ x, m.tbl.indeg (m1.max + 1) x = m.tbl.indeg (m.max + 1) x := by
+              intro x
+              apply m.tbl.indeg_bound (m.max + 1) x (m1.max + 1) (by have := A.maxle; omega)
+              intro p hp
+              cases hn : m.tbl.node? p with
+              | none => rfl
+              | some n => have := h.maxOK p n hn; omega
+            have hindeg : ∀ x, m3.tbl.indeg (m3.max + 1) x = m.tbl.indeg (m.max + 1) x + cntInto L x := by
+              intro x
+              rw [hR.tbl, hm2tbl, hR.max]
+              show (m.tbl.addNode u1 ⟨i, L⟩).indeg (m1.max + 1) x = _
+              rw [m.tbl.indeg_addNode u1 ⟨i, L⟩ A.fresh (m1.max + 1) (by have := A.le_max; omega) x, hbound]
+            have href : ∀ x, m3.ref[x]? = ((m.ref.insert u1 0)[x]?).map (fun v => v + cntInto L x) := by
+              intro x
+              rw [hcount x]
+              show ((m1.ref.insert u1 0)[x]?).map _ = _
+              rw [A.ref]
+            constructor
+            · intro x hxm
+              rw [href x, natmap_getElem?_insert, hindeg x]
+              by_cases hux : u1 = x
+              · subst hux
+                simp only [if_true, Option.map_some, Option.some.injEq]
+                rw [m.tbl.indeg_fresh hW u1 A.fresh hu1ne, hx.extZero u1 hu1ne A.fresh, hcntL]
+              · simp only [hux, if_false]
+                have hxm' : x = 1 ∨ (m.tbl.node? x).isSome := by
+                  rcases hxm with h1 | h1
+                  · exact Or.inl h1
+                  · right
+                    rw [hR.tbl, hm2tbl, MTbl.node?_addNode, if_neg hux] at h1
+                    exact h1
+                rw [hx.cnt x hxm']
+                simp only [Option.map_some, Option.some.injEq]
+                omega
+            · intro x hx1 hxn
+              rw [hR.tbl, hm2tbl, MTbl.node?_addNode] at hxn
+              by_cases hux : u1 = x
+              · simp [hux] at hxn
+              · simp only [hux, if_false] at hxn
+                exact hx.extZero x hx1 hxn
 
 /-- what `find_or_add(i, *nodes)` promises when it returns `r` -/
 structure FoaOK (m : MddMgr) (i : Nat) (nodes : List Int) (r : Int) (m' : MddMgr) : Prop where
@@ -206,6 +246,7 @@ structure FoaOK (m : MddMgr) (i : Nat) (nodes : List Int) (r : Int) (m' : MddMgr
   lvl : i ≤ m'.tbl.levelOf r
   len : nodes.length = m.tbl.arity i
   den : ∀ a k, nodes[a i]? = some k → denM m'.tbl r a = denM m'.tbl k a
+  exact : ∀ ext, RefExact m ext → RefExact m' ext
 
 theorem all_eq_of_all {l : List Int} {c : Int} (h : l.all (fun u => u == c) = true) :
     ∀ k ∈ l, k = c := by
@@ -272,7 +313,7 @@ theorem mFindOrAddCore_spec (m : MddMgr) (h : MInv m) (i : Nat) (nodes : List In
                 have hr' : r = n0 := by omega
                 subst hr'
                 have hall3 := all_eq_of_all hall2
-                refine ⟨h, MExt.refl _, hn0m, Nat.le_of_lt (hlt r (by simp)), hlen', ?_⟩
+                refine ⟨h, MExt.refl _, hn0m, Nat.le_of_lt (hlt r (by simp)), hlen', ?_, fun _ hx => hx⟩
                 intro a k hk
                 have hkm := getElem?_mem' hk
                 have : -k = -r := hall3 (-k) (by
@@ -308,7 +349,7 @@ theorem mFindOrAddCore_spec (m : MddMgr) (h : MInv m) (i : Nat) (nodes : List In
                   have humem : m1.tbl.Mem (u : Int) := Or.inr (by rw [hnode]; rfl)
                   have hrr : r = -(u : Int) := by omega
                   subst hrr
-                  refine ⟨M.inv, M.ext, MTbl.mem_neg humem, ?_, hlen', ?_⟩
+                  refine ⟨M.inv, M.ext, MTbl.mem_neg humem, ?_, hlen', ?_, M.exact⟩
                   · rw [MTbl.levelOf_neg, m1.tbl.levelOf_node (u : Int) _ hu1 hnode]
                     exact Nat.le_refl _
                   · intro a k hk
@@ -329,7 +370,7 @@ theorem mFindOrAddCore_spec (m : MddMgr) (h : MInv m) (i : Nat) (nodes : List In
                 have hr' : r = n0 := by omega
                 subst hr'
                 have hall3 := all_eq_of_all hall2
-                refine ⟨h, MExt.refl _, hn0m, Nat.le_of_lt (hlt r (by simp)), hlen', ?_⟩
+                refine ⟨h, MExt.refl _, hn0m, Nat.le_of_lt (hlt r (by simp)), hlen', ?_, fun _ hx => hx⟩
                 intro a k hk
                 rw [hall3 k (getElem?_mem' hk)]
               · next hall2 =>
@@ -349,7 +390,7 @@ theorem mFindOrAddCore_spec (m : MddMgr) (h : MInv m) (i : Nat) (nodes : List In
                   have humem : m1.tbl.Mem (u : Int) := Or.inr (by rw [hnode]; rfl)
                   have hrr : r = (u : Int) := by omega
                   subst hrr
-                  refine ⟨M.inv, M.ext, humem, ?_, hlen', ?_⟩
+                  refine ⟨M.inv, M.ext, humem, ?_, hlen', ?_, M.exact⟩
                   · rw [m1.tbl.levelOf_node (u : Int) _ hu1 hnode]
                     exact Nat.le_refl _
                   · intro a k hk
